@@ -43,6 +43,8 @@ def apply_edits(root, edits):
         src = open(path).read()
         n = src.count(e["old"])
         want = e.get("count", 1)
+        if want is None:
+            want = n if n > 0 else -1
         if n != want:
             return f"edit does not apply: {e['file']}: {n} occurrences of {e['old']!r} (want {want})"
         src = src.replace(e["old"], e["new"])
